@@ -133,7 +133,7 @@ def refine_both(r: R, chk, qual: str, rule="REFINE-BOTH"):
                 # allowed only where the two knot vectors were found equal
                 for txt, pol in path_facts_avoiding(ctx, lp.id, avoid):
                     t = txt.replace(" ", "")
-                    if (pol and t in ("self.knotvector==other.knotvector", "other.knotvector==self.knotvector")) or (not pol and t in ("self.knotvector!=other.knotvector", "other.knotvector!=self.knotvector")):
+                    if pol and t in ("self.knotvector==other.knotvector", "other.knotvector==self.knotvector"):
                         ok = True
             chk.ob(rule, f"{qual}: `{var}` is compared only after refinement to the common knot vector (or where both knot vectors are equal)", ok, loc=r.loc(ctx, lp.ast),
                    detail="" if ok else f"{qual}: a path reaches the point-by-point comparison with `{var}` not refined to the common knot vector and without `self.knotvector == other.knotvector` having been established: control points over different knot vectors (e.g. the same knots with different multiplicities) are zipped and truncated",
@@ -172,7 +172,9 @@ def path_facts_avoiding(ctx, nid: int, avoid: Set[int]):
                     pp, q = p, pol
                     while isinstance(pp, ast.UnaryOp) and isinstance(pp.op, ast.Not):
                         pp, q = pp.operand, not q
-                    facts.add((seg(pp), q))
+                    from .c08 import norm_fact
+
+                    facts.add(norm_fact(pp, q))
     return facts
 
 
